@@ -64,6 +64,7 @@ FNS = {
     'p*w': lambda L, p, w: p * w,
     'w*=p': lambda L, w, p: __import__('operator').imul(w, p),
     'asfortran': lambda L, a: np.asfortranarray(a),
+    'astype': lambda L, a, dtype: np.asarray(a).astype(dtype),
     'transposed_view': lambda L, a: np.ascontiguousarray(np.asarray(a).T).T,
     'Plane.fit_tilt': lambda L, p, inplace=False: p.fit_tilt(inplace=inplace),
     'Plane.copy': _method('copy'),
